@@ -40,6 +40,7 @@ type DrawRec struct {
 }
 
 type ReadRec struct {
+	Site string `json:"site,omitempty"` // last major yield site before the read
 	Req int    `json:"req"`
 	Got int    `json:"got"`
 	Err string `json:"err,omitempty"`
@@ -63,6 +64,7 @@ type Tape struct {
 	dead     error // a fault delivered an error: every later read fails too
 	// probes
 	CharLists [][]string // every alphabet list handed to Generate (after H2), in call order
+	lastSite string
 	Unbound int // words served for reads no bounded draw announced (redraws, raw reads)
 	limit   int
 }
@@ -164,10 +166,10 @@ func biasedWord(r *Rng, n uint32) uint32 {
 	case 5:
 		return top
 	case 6:
-		k := uint32(r.U64() % uint64(math.MaxUint32/n+1))
+		k := uint32(r.U64() % (uint64(math.MaxUint32/n) + 1))
 		return k*n - 1
 	case 7:
-		k := uint32(r.U64() % uint64(math.MaxUint32/n+1))
+		k := uint32(r.U64() % (uint64(math.MaxUint32/n) + 1))
 		return k * n
 	}
 	return r.U32()
@@ -175,7 +177,10 @@ func biasedWord(r *Rng, n uint32) uint32 {
 
 func (t *Tape) Read(p []byte) (int, error) {
 	readNo := len(t.Reads)
-	rec := ReadRec{Req: len(p)}
+	if readNo > 1<<18 {
+		panic(sentRunaway)
+	}
+	rec := ReadRec{Req: len(p), Site: t.lastSite}
 	defer func() { t.Reads = append(t.Reads, rec) }()
 	if len(t.Served) > t.limit {
 		panic(sentRunaway)
@@ -300,6 +305,7 @@ func (dispatcher) Read(p []byte) (int, error) {
 }
 
 func installSimulator() {
+	installed = true
 	simr.osReader = rand.Reader
 	rand.Reader = dispatcher{}
 	spg.VerifHooks.NoteDraw = func(n uint32) {
@@ -313,6 +319,11 @@ func installSimulator() {
 	spg.VerifHooks.Yield = func(site string) {
 		if simr.probe.active {
 			return
+		}
+		if site == "sfWrap" || site == "WLRecipe.Generate:beforeWord" || site == "WLRecipe.Generate:beforeEntropy" || site == "CharRecipe.Generate:afterBuild" {
+			if t := currentTape(); t != nil {
+				t.lastSite = site
+			}
 		}
 		if s := simr.sched; s != nil {
 			s.yield(site)
